@@ -261,7 +261,9 @@ class QpointsPhonon:
             else:
                 dm = self._get_dynamical_matrix(q)
             if self._with_dynamical_matrices:
-                dynamical_matrices.append(dm)
+                # dm can be a view of the array that is reused below to
+                # store eigenvectors.
+                dynamical_matrices.append(np.array(dm, copy=True))
             if self._with_eigenvectors:
                 eigvals, eigvecs = np.linalg.eigh(dm)
                 eigenvectors[i] = eigvecs
